@@ -4,6 +4,7 @@ import (
 	"bytes"
 	"io"
 	"net"
+	"strings"
 	"time"
 )
 
@@ -250,6 +251,16 @@ func H_c01_two_party() {
 	na := symInt(symParam("NAMIN", 0), NA)
 	nb := symInt(0, NB)
 	all := c01Msgs(na + nb)
+	if symParam("LONGSUBJ", 0) == 1 && len(all) > 0 {
+		// the longest subjects Validate admits: 128 bytes of header value, i.e.
+		// up to 36 Latin-1 letters once Q-encoded, or 128 ASCII characters
+		if symInt(0, 1) == 1 {
+			all[0].SetSubject(strings.Repeat("\u00e6", symInt(30, 37)))
+		} else {
+			all[0].SetSubject(strings.Repeat("x", symInt(126, 129)))
+		}
+		symAssume(all[0].Validate() == nil)
+	}
 	aMsgs, bMsgs := all[:na], all[na:]
 	polOf := make(map[string]ProposalAnswer)
 	if symParam("POLICY", 0) == 1 {
